@@ -719,8 +719,9 @@ def factor_density_matrix(
     remainder = partial_trace(t, remaining_axes)
     if validate:
         t1 = density_matrix_kronecker_product(extracted, remainder)
+        # t1 has the axes in the order axes + remaining_axes; the inverse permutation puts them back.
         product_axes = list(axes) + remaining_axes
-        t2 = transpose_density_matrix_to_axis_order(t1, product_axes)
+        t2 = transpose_density_matrix_to_axis_order(t1, list(np.argsort(product_axes)))
         if not np.allclose(t2, t, atol=atol):
             raise ValueError('The tensor cannot be factored by the requested axes')
     return extracted, remainder
